@@ -30,6 +30,14 @@ var bodies = [][]byte{
 var producerTexts = []string{"", "4", "5", "45", "2", "451 4.3.0 looks like a reply", "x",
 	"timeout: i/o timeout", "deadline exceeded while reading the source", "ctx deadline exceeded", "canceled by caller", "eof from the source", "closed network connection"}
 
+// capabilities a server may advertise and go-mail (without SMTP AUTH configured) never looks at
+var inertCaps = [][]string{
+	{"PIPELINING", "X-FOO"},
+	{"PIPELINING"},
+	{"X-FOO bar"},
+	{"PIPELINING", "SIZE 10240000", "CHUNKING", "AUTH PLAIN LOGIN", "HELP", "ETRN", "BINARYMIME", "REQUIRETLS", "X-FOO"},
+}
+
 var negDev = []string{"451:4.3.0_try_again_later", "554:5.7.1_rejected_by_policy", "drop"}
 var oddDev = []string{"250:2.0.0_Ok|2.0.0_second_line", "354:go|ahead", "raw=250-2.0.0_Ok|251_differs", "554:5.7.1_no|5.7.1_really_no|5.7.1_never",
 	"251:2.1.5_will_forward", "252:2.0.0_cannot_verify", "250:2.0.0_custom_ok", "354:go_ahead", "220:hello", "550", "421:4.3.2_shutting_down"}
@@ -101,6 +109,9 @@ func randomCase(rng *rand.Rand, prop string) *Case {
 		c.Ret, c.Notify = "HDRS", "SUCCESS,FAILURE"
 	case 2:
 		c.Notify = "NEVER"
+	}
+	if rng.Intn(2) == 0 {
+		c.Caps = append(c.Caps, inertCaps[rng.Intn(len(inertCaps))]...)
 	}
 	c.NoNoop = rng.Intn(8) == 0
 	c.Prog = []string{"das", "das", "das", "dasn", "send", "reset", "two", "das", "das", "conc"}[rng.Intn(10)]
@@ -203,7 +214,33 @@ func c20Decision(rng *rand.Rand, code, kind int) string {
 func generate(r *hx.Run, prop string) []*Case {
 	var out []*Case
 	thorough := r.Tier == "thorough"
-	add := func(c *Case) { out = append(out, c) }
+	nadd := 0
+	withInert := func(c *Case, inert []string) *Case {
+		d := *c
+		d.Caps = append(append([]string{}, c.Caps...), inert...)
+		if c.TLS == 'O' || c.TLS == 'M' {
+			d.CapsTLS = append(append([]string{}, c.CapsTLS...), inert...)
+		}
+		return &d
+	}
+	add := func(c *Case) {
+		out = append(out, c)
+		nadd++
+		// capabilities the client does not use itself: every case in which a producer fails also runs with
+		// PIPELINING + an unknown extension, every 5th other case with one of the inert sets (thorough: every case)
+		fails := false
+		for _, m := range c.Msgs {
+			if m.Kind == 'w' || m.Kind == 'a' {
+				fails = true
+			}
+		}
+		if fails {
+			out = append(out, withInert(c, inertCaps[0]))
+		}
+		if nadd%5 == 0 || thorough {
+			out = append(out, withInert(c, inertCaps[1+nadd%(len(inertCaps)-1)]))
+		}
+	}
 	base := func(nm, nr int, enc byte, caps []string, sc []smtpx.Decision) *Case {
 		return &Case{Caps: caps, Msgs: mkMsgs(nm, nr, enc, bodies[0]), Script: sc}
 	}
